@@ -1,7 +1,7 @@
 SPECIFICATION SimSpec
 CONSTANTS
   Frames = {"A", "B", "C"}
-  ParamIds = {"nil", "def"}
+  ParamIds = {"nil", "def", "alt"}
   MaxOps = 4
   MaxSeq = 8
 INVARIANTS OneToOneInOrder HistoryFree
